@@ -45,6 +45,13 @@ def gen_cases(rng, n, tier):
     for c in links:
         c['kind'] = 'H'
         out.append(c)
+    # savepoints (rollback / release / a flush failing inside / retries after a rollback): twin run only - the Layer-B
+    # replay of savepoints belongs to C06; here outcomes and application tables with and without versioning
+    import pC06
+    spcfgs = [c for c in B.all_cfgs('blog') if not c['null_delete']]
+    for i in range(max(12, n // 12)):
+        prog = [op for op in pC06.gen_sp_program(rng) if op[0] not in ('conn_rollback', 'rawlink', 'rawunlink', 'manualtx', 'sp_fail')]
+        out.append(dict(kind='H', cfg=dict(spcfgs[(i * 5) % len(spcfgs)]), prog=prog, twin_only=True))
     for i in range(max(10, n // 10)):
         cfg = dict(B.all_cfgs('blog')[i % 32])
         cfg['twin'] = False
@@ -70,6 +77,13 @@ def corpus():
             dict(kind='H', cfg=inh,
                  prog=[['add', 1, 1, {'a': 1, 'pages': 2}], ['add', 1, 2, {'a': 1, 'pages': 2}], ['commit'], ['forget'],
                        ['delbase', 1, 1], ['flush'], ['delbase', 1, 2], ['commit']]),
+            # an entity versioned for the first time inside a savepoint that is rolled back, then changed again
+            dict(kind='H', cfg=cfg, twin_only=True,
+                 prog=[['add', 0, 1, {'a': 1}], ['add', 0, 2, {'a': 1}], ['commit'], ['set', 0, 1, {'a': 2}], ['flush'], ['sp_begin'],
+                       ['set', 0, 2, {'a': 2}], ['flush'], ['sp_rollback'], ['set', 0, 2, {'a': 3}], ['flush'], ['commit']]),
+            dict(kind='H', cfg=dict(cfg, strategy='subquery'), twin_only=True,
+                 prog=[['add', 0, 1, {'a': 1}], ['add', 0, 2, {'a': 1}], ['commit'], ['set', 0, 1, {'a': 2}], ['flush'], ['sp_begin'],
+                       ['set', 0, 2, {'a': 2}], ['flush'], ['sp_rollback'], ['set', 0, 2, {'a': 3}], ['flush'], ['commit']]),
             dict(kind='H', cfg=cfg, prog=[['add', 0, 1, {'a': 1}], ['add', 2, 1, {'a': 1}], ['commit'], ['rawlink', 1, 1], ['commit']]),
             dict(kind='H', cfg=cfg, prog=[['add', 0, 1, {'a': 1}], ['add', 2, 1, {'a': 1}], ['link', 1, 1], ['flush'], ['unlink', 1, 1], ['commit']]),
             dict(kind='H', cfg=cfg, prog=[['add', 0, 1, {'a': 1}], ['add', 2, 1, {'a': 1}], ['flush'], ['rawlink_inline', 1, 1], ['add', 0, 2, {'a': 1}], ['commit']]),
@@ -212,6 +226,11 @@ def run_impl(cases):
 
 def encode(case, obs):
     if case['kind'] == 'H':
+        if case.get('twin_only') and any(ev['ev'].startswith('sp') for ev in obs.get('trace') or []):
+            # twin-only cases are judged on outcomes, application tables and dangling ids: the savepoint marks (and
+            # the snapshots taken at them) are dropped from the trace, which is not replayed in the model for them
+            keep = [i for i, ev in enumerate(obs['trace']) if not ev['ev'].startswith('sp')]
+            obs = dict(obs, trace=[obs['trace'][i] for i in keep], snaps=[obs['snaps'][i] for i in keep])
         return '(%s %s)' % ('C07_T' if case.get('twin_only') else 'C07_H', hist.encode_case(case, obs))
     if obs.get('exc'):
         return '(C07_R snap0 snap0 0 true)'
@@ -247,6 +266,8 @@ def shrink(case):
     out = []
     for c in B.shrink(case):
         c['kind'] = 'H'
+        if case.get('twin_only'):
+            c['twin_only'] = True
         out.append(c)
     return out
 
